@@ -141,6 +141,10 @@ class Native:
                 s.generic_visit(n)
                 if isinstance(n.func, ast.Name) and n.func.id in ("forall", "exists"):
                     n.keywords = [k for k in n.keywords if k.arg != "triggers"]
+                if isinstance(n.func, ast.Name) and n.func.id == "implies" and len(n.args) == 2:
+                    # logical implication: the consequent is only evaluated when the antecedent holds (as in the SMT reading,
+                    # where an undefined term under a false guard is harmless)
+                    return ast.copy_location(ast.BoolOp(op=ast.Or(), values=[ast.UnaryOp(op=ast.Not(), operand=n.args[0]), n.args[1]]), n)
                 return n
         node = ast.fix_missing_locations(T().visit(node))
         if old_env is not None and self.old_snapshot is not None and "old(" in text:
